@@ -13,6 +13,8 @@ STUB_COMMON = [
     'queue.SimpleQueue (C) -> queue._PySimpleQueue (stdlib pure-Python twin)',
 ]
 ASSUME_COMMON = [
+    'pre-emption points: every lock operation always; in a drawn share of the runs also every function entry of '
+    'the library\'s modules, and in a third of those every line of them (sys.monitoring PY_START / LINE)',
     'pre-emption happens at synchronisation operations, thread start/join, sleeps and (in a '
     'fraction of runs) at function entry inside the concurrent modules of ml_metrics; switches '
     'in the middle of straight-line attribute updates are not explored',
@@ -75,7 +77,8 @@ CHECKS = {
                  'buffer size, number and length of input iterators, and one of {no fault, early stop after s '
                  'outputs via num_steps or maybe_stop, failure of the mapped function/source at one item}, '
                  'under a seeded schedule. Non-trivial = parallelism > 0, at least one item and more than two '
-                 'context switches; distinct = distinct event-log digests'),
+                 'context switches; distinct = distinct event-log digests. The single input of pmap / piter_fn / '
+                 'MultiplexIterator is in a third of those runs the iterator of a queue fed by another thread'),
         'real': REAL_COMMON,
         'stub': STUB_COMMON,
         'assumptions': ASSUME_COMMON + [
@@ -95,7 +98,10 @@ CHECKS = {
                  'dataset, runs it sequentially as one fused stage (reference) and then under one strategy: '
                  'num_threads 1..4 over a shardable or non-shardable source, a chain of 2-3 named stages (with or '
                  'without threads), k<=5 shards run concurrently with states merged in a schedule-chosen order, or '
-                 'the in-process interleaved runner; the thread schedule is seeded. Non-trivial = more than two '
+                 'the in-process interleaved runner; chains may run their stages with different thread counts and carry '
+                 'aggregates on the first stage as well (reference then = the same chain, sequential); shard states '
+                 'are merged from a list or a one-shot generator, with or without the strict count; one aggregate in '
+                 'the pool is functional (immutable tuple states); the thread schedule is seeded. Non-trivial = more than two '
                  'context switches (or a chained run); distinct = distinct event-log digests'),
         'real': REAL_COMMON + ['asyncio BaseEventLoop core, tasks, run_in_executor, run_coroutine_threadsafe'],
         'stub': STUB_COMMON + ['asyncio selector/self-pipe/clock -> simkit.aioloop.SimEventLoop'],
@@ -117,7 +123,11 @@ CHECKS = {
                  'state is round-tripped through cloudpickle and a freshly built iterator is restored from the '
                  'bytes; over plain / sharded / nested-sharded SequenceDataSource and (sharded) ShardedIterable, at '
                  'the data-source level and for fused or chained pipelines with aggregates and num_threads 0..3 '
-                 '(seeded thread schedule decides how far the workers have run ahead at the cut). Non-trivial = at '
+                 '(seeded thread schedule decides how far the workers have run ahead at the cut); also multi-file '
+                 'sources (from_sequences, shard ends on file boundaries), chains of up to three stages with '
+                 'aggregates on the first, periodic checkpointing (the job runs on for 0-3 elements after the capture '
+                 'and the captured object is written out at the crash), a second restore from the same loaded state, '
+                 'sources that skip unreadable records, and the value carried by the final StopIteration. Non-trivial = at '
                  'least one crash/restore happened; distinct = distinct event-log digests'),
         'real': REAL_COMMON + ['cloudpickle round trip of the captured state (the only thing that survives a crash)'],
         'stub': STUB_COMMON,
@@ -134,7 +144,9 @@ CHECKS = {
         'level': 'fault_enumeration',
         'rule': ('each evaluation injects 1-4 failures at drawn positions into one seam of a pipeline: element and '
                  'slice reads of the data source (this is where _RangeIterator reads ahead and falls back), the '
-                 'function of an apply / assign / filter operator, or a sink write; error types skippable '
+                 'function of an apply / assign / filter operator, a sink write, or malformed records that fail in the '
+                 'input selection of an operator; optionally a well-behaved sink upstream of the failing operator; after '
+                 'an error the iterator is asked twice more; error types skippable '
                  '(ValueError, TypeError) and not (KeyError, RuntimeError); skipping on/off (source-level and '
                  'operator-level separately); with and without fn_batch_size/batch_size; num_threads 0..2 under a '
                  'seeded schedule. Reference = the same pipeline without faults, minus the elements whose processing '
@@ -157,7 +169,9 @@ CHECKS = {
                  '(nested calls, attributes, items, raising functions; cached results), async evaluation, chains on a '
                  'RemoteObject (attr, method, item, call, state mutation, failing method), remote iterators (private and '
                  'shared by all clients) and remote queues; message latencies drawn per message; optionally a '
-                 'shutdown (stop(), shutdown RPC, or kill of the node) after a drawn number of scheduling steps. '
+                 'shutdown (stop(), shutdown RPC, or kill of the node) after a drawn number of scheduling steps; slow '
+                 'failing evaluations that a shutdown request can overlap; producers of served queues that pause past '
+                 'the call deadline; every step through a client with a deadline is bounded (H + T + 100 s). '
                  'Non-trivial = more than five context switches; distinct = distinct event-log digests'),
         'real': REAL_COMMON + ['asyncio BaseEventLoop core', 'ml_metrics CourierServer/CourierClient/RemoteObject/lazy_fns, cloudpickle'],
         'stub': STUB_COMMON + ['courier.Server/Client -> fakes/courier (in-process transport: by-value arguments, one handler '
@@ -179,10 +193,12 @@ CHECKS = {
         'level': 'exploration',
         'rule': ('each evaluation starts a real PrefetchedCourierServer on the simulated network and drives the '
                  'generator protocol (init_generator, next_batch_from_generator) either request by request or through '
-                 'the real client loop async_iterate, with drawn prefetch size 1..4, batch size 1..5, generator length '
+                 'the real client loop async_iterate, with drawn prefetch size 1..4, batch size 0 (as many as there are) '
+                 'or 1..5, generator length '
                  '0..9, return value, failure position, ignore_error, message latencies, and one scenario of {plain, '
                  'failure, sequential re-init after k batches, re-init concurrent with an in-flight request, shutdown at '
-                 'a drawn step}. Non-trivial = more than five context switches; distinct = distinct event-log digests'),
+                 'a drawn step, 2-3 concurrent initialisations over an optional earlier generator}. Non-trivial = more '
+                 'than five context switches; distinct = distinct event-log digests'),
         'real': REAL_COMMON + ['ml_metrics PrefetchedCourierServer, CourierClient.async_iterate, IteratorQueue, lazy_fns'],
         'stub': STUB_COMMON + ['courier.Server/Client -> fakes/courier', 'asyncio selector/self-pipe/clock -> SimEventLoop'],
         'assumptions': ASSUME_COMMON + [
@@ -202,7 +218,8 @@ CHECKS = {
                  '(reference) and then over 1-3 real PrefetchedCourierServer workers plus a host server on the '
                  'simulated network: sharded_pipelines_as_iterator with 1-5 shards (result through the result '
                  'queue and the compute_result thread) or run_pipeline_interleaved with a worker pool, a master '
-                 'server and remote queues; iterate batch size, prefetch size, buffer size and message latencies '
+                 'server and remote queues; iterate batch size (0 = all available, 1-4), prefetch size, buffer size, '
+                 'max_parallelism 1-3, aggregates on two named stages, a functional aggregate, and message latencies '
                  'drawn; a third mode checks the strict state count of merge_states on both runner classes. '
                  'Non-trivial = more than ten context switches (or the strict-count mode); distinct = digests'),
         'real': REAL_COMMON + ['asyncio core', 'ml_metrics orchestrate/courier_worker/courier_server/courier_utils'],
@@ -223,7 +240,8 @@ CHECKS = {
                  'integer aggregate) over 1-4 real workers with a fault plan of 0-3 faults placed by (worker, method, '
                  'n-th call): request dropped, reply dropped, reply delayed past the deadline, slow handler, death on '
                  'arrival, death after the work, death + restart after a delay; optionally an application error in '
-                 'one task/shard and a clock jump; call timeout, heartbeat threshold and retry threshold drawn. The '
+                 'one task/shard and a clock jump; a consumer that takes 1-6 s per batch or closes the generator early; '
+                 'call timeout, heartbeat threshold and retry threshold drawn. The '
                  'outcome is judged by the clause its fired faults allow (scenarios/c06.py: classify). Non-trivial = '
                  'at least one fault fired; distinct = distinct event-log digests'),
         'real': REAL_COMMON + ['asyncio core', 'ml_metrics orchestrate/courier_worker/courier_server/courier_utils'],
@@ -250,7 +268,8 @@ CHECKS = {
                  'at every scheduling point (heartbeat never decreases, a dead worker only comes back through a '
                  'register); ownership: 2-3 pools (one of them sometimes driven by two threads) acquire and release 1-3 '
                  'shared Worker objects through acquire_by, _acquire_all, next_idle_worker, release_all; poolops: '
-                 'WorkerPool.run / call_and_wait against real servers with tasks that return or raise, in 60% of the runs '
+                 'WorkerPool.run / call_and_wait / as_completed (consumed to the end or closed after k of n results) against '
+                 'real servers with tasks that return or raise, in 60% of the runs '
                  'while workers leave (graceful goodbye, partition, restart, lost reply at the n-th call or at an '
                  'arbitrary scheduling step; call_timeout 5 or 200 s, never 0 = wait for ever by design); distrelease: the '
                  'fault-free sharded / interleaved drivers of C16, judged only on workers being released. 60% of the '
